@@ -85,6 +85,10 @@ def tracegen_jobs(tier):
                 J.seed_job(cfg(P, 10, 60, muts=ms, rate=rate, unsafe=True))
         for bs in (0, 16, 512, 100000):
             J.seed_job(cfg(P, bufsize=bs)); J.bytes_job(cfg(P, 10, 60, bufsize=bs))
+            # two options together: the (inert) buffer size with mutators at rate 0 / 1
+            for ms in (["stringlen"], ["stringlen", "character", "boundary"], list(MUTS)):
+                J.seed_job(cfg(P, 20, 80, muts=ms, rate=1.0, bufsize=bs)); J.bytes_job(cfg(P, 20, 80, muts=ms, rate=1.0, bufsize=bs))
+            J.seed_job(cfg(P, 20, 80, muts=MUTS, rate=0.0, bufsize=bs))
         J.seed_job(cfg(P, 10, 60, muts=MUTS, rate=0.5, alt_builder=True))
         for ms in DUP_LISTS:       # one-at-a-time registration of a list that repeats a name
             J.seed_job(cfg(P, 10, 60, muts=ms, rate=1.0, alt_builder=True))
